@@ -87,6 +87,8 @@ def random_cfg(r, page_sizes=None, small=False):
         "with_without_rowid": r.random() < 0.3,
         "with_view_trigger": r.random() < 0.3,
         "big_values": r.random() < 0.6,
+        "wide_table": r.choice([0, 0, 0, 150, 300, 700]),
+        "fragmenter": r.choice([None, None, (r.randint(17, 23), 3), (20, 3), (r.randint(25, 60), r.choice([1, 2, 3]))]),
     }
 
 
@@ -120,6 +122,33 @@ def build(path, cfg, r):
             where = f" WHERE {icols[0]} IS NOT NULL" if r.random() < 0.2 else ""
             con.execute(f"CREATE {uniq}INDEX {iname} ON {name} ({', '.join(icols)}){where}")
             indexes[iname] = (name, icols)
+    if cfg.get("wide_table"):
+        # a table so wide that the record header itself is longer than the local part of an overflowing record
+        nw = cfg["wide_table"]
+        wnames = [f"w{i}" for i in range(nw)]
+        con.execute(f"CREATE TABLE wide ({', '.join(wnames)})")
+        tables["wide"] = (wnames, False)
+        con.execute("BEGIN")
+        for k in range(r.randint(2, 5)):
+            vals = [r.choice([None, k, -k, 1.5, "x" * r.randint(0, 3), b"", r.randint(-2 ** 40, 2 ** 40), "t"]) for _ in wnames]
+            if k % 2:
+                vals[-1] = "y" * (cfg["page_size"] + 50)
+            con.execute(f"INSERT INTO wide VALUES ({','.join('?' * nw)})", vals)
+        con.execute("COMMIT")
+    if cfg.get("fragmenter"):
+        # shrink distinct rows of one leaf by 1-3 bytes each: every update leaves a fragment; 20 x 3 bytes reach
+        # the limit of 60 fragmented bytes exactly
+        nupd, step = cfg["fragmenter"]
+        con.execute("CREATE TABLE frag (a INTEGER PRIMARY KEY, b TEXT)")
+        tables["frag"] = (["a", "b"], True)
+        con.execute("BEGIN")
+        width = 40
+        per_leaf = max(4, min(60, (cfg["page_size"] - 100) // (width + 6)))
+        for i in range(1, per_leaf + 1):
+            con.execute("INSERT INTO frag VALUES (?, ?)", (i, "f" * width))
+        con.execute("COMMIT")
+        for i in range(1, min(nupd, per_leaf) + 1):
+            con.execute("UPDATE frag SET b = substr(b, 1, ?) WHERE a = ?", (width - step, i))
     if cfg["with_without_rowid"]:
         con.execute("CREATE TABLE w0 (k TEXT, k2 INTEGER, v BLOB, PRIMARY KEY (k, k2)) WITHOUT ROWID")
         wr["w0"] = ["k", "k2", "v"]
@@ -135,7 +164,7 @@ def build(path, cfg, r):
             if name == "log0":
                 continue
             for _ in range(n):
-                vals = [rand_value(r, ps, big=cfg["big_values"]) for _ in names]
+                vals = [rand_value(r, ps, big=cfg["big_values"] and name != "wide") for _ in names]
                 if alias:
                     vals[0] = None if r.random() < 0.7 else r.choice(
                         [r.randint(-(2 ** 62), 2 ** 62), r.randint(1, 10 ** 6), -r.randint(1, 10 ** 6), 2 ** 56 + r.randint(0, 99)])
@@ -167,7 +196,8 @@ def build(path, cfg, r):
                 c = r.choice(names[1:] or names) if alias else r.choice(names)
                 if alias and c == "c0":
                     continue
-                con.execute(f"UPDATE {name} SET {c}=? WHERE rowid=?", (rand_value(r, ps, big=cfg["big_values"]), rid))
+                con.execute(f"UPDATE {name} SET {c}=? WHERE rowid=?",
+                            (rand_value(r, ps, big=cfg["big_values"] and name != "wide"), rid))
         con.execute("COMMIT")
         insert_rows(max(1, cfg["rows"] // 4))
     if r.random() < 0.15 and tables:
@@ -183,19 +213,23 @@ def build(path, cfg, r):
 
 
 def oracle_rows(path, table, names):
-    """rows as SQLite reports them: (rowid, [(typeof, hex or value)])"""
+    """rows as SQLite reports them: (rowid, [(typeof, hex, value)]); wide tables are read in column chunks"""
     con = sqlite3.connect(f"file:{path}?mode=ro", uri=True)
     try:
-        cols = ", ".join(f"typeof({c}), hex({c}), {c}" for c in names)
-        out = []
-        for row in con.execute(f"SELECT rowid, {cols} FROM {table} ORDER BY rowid"):
-            rid = row[0]
-            vals = []
-            for i in range(len(names)):
-                ty, hx, v = row[1 + 3 * i], row[2 + 3 * i], row[3 + 3 * i]
-                vals.append((ty, hx, v))
-            out.append((rid, vals))
-        return out
+        rows = {}
+        order = []
+        for lo in range(0, max(1, len(names)), 400):
+            chunk = names[lo:lo + 400]
+            cols = ", ".join(f'typeof("{c}"), hex("{c}"), "{c}"' for c in chunk)
+            q = f"SELECT rowid{', ' + cols if cols else ''} FROM {table} ORDER BY rowid"
+            for row in con.execute(q):
+                rid = row[0]
+                if rid not in rows:
+                    rows[rid] = []
+                    order.append(rid)
+                for i in range(len(chunk)):
+                    rows[rid].append((row[1 + 3 * i], row[2 + 3 * i], row[3 + 3 * i]))
+        return [(rid, rows[rid]) for rid in order]
     finally:
         con.close()
 
